@@ -287,7 +287,9 @@ class SupervisedOPF(OPF):
             preds = self.predict(X_val)
 
             acc = g.opf_accuracy(Y_val, preds)
-            if acc > max_acc:
+
+            # The first iteration is always kept, even when its accuracy is zero
+            if t == 0 or acc > max_acc:
                 max_acc = acc
                 best_opf = copy.deepcopy(self)
                 best_t = t
@@ -329,7 +331,8 @@ class SupervisedOPF(OPF):
             )
 
             if delta < 0.0001 or t == n_iterations:
-                self = best_opf
+                # Restores the best classifier, as re-binding `self` does not change the object
+                self.subgraph = best_opf.subgraph
 
                 logger.info(
                     "Best classifier has been learned over iteration %d.", best_t + 1
